@@ -284,6 +284,25 @@ Section Exec.
   (* result: world, array, ok (false: reflect.Call was handed an invalid Value = panic) *)
   Definition xres := (W * list val * bool)%type.
 
+  (* a wrapper: snapshot at entry, restore in place before the 2nd+ inner() call, zero the
+     returns if inner() was never called, then write the wrapper's own returns *)
+  Fixpoint run_wrap (c : cp) (exec_rest : W -> list val -> xres) (snapshot : list val)
+           (t : wtree) (cur : list val) (count : nat) {struct t} : xres :=
+    match t with
+    | WRet w1 rets =>
+      let cur1 := if count =? 0 then zero_arr (cp_zero c) cur else cur in
+      (w1, write_params (cp_ret c) rets cur1, true)
+    | WInner w1 iargs k =>
+      let start := if cp_parallel c then snapshot
+                   else if count =? 0 then cur else snapshot in
+      match exec_rest w1 (write_params (cp_out c) iargs start) with
+      | (w2, a2, ok) =>
+        if negb ok then (w2, a2, false) else
+        run_wrap c exec_rest snapshot (k w2 (read_params (cp_recv c) a2))
+                 (if cp_parallel c then cur else a2) (S count)
+      end
+    end.
+
   Fixpoint exec (prog : list cp) (w : W) (a : list val) {struct prog} : xres :=
     match prog with
     | [] => (w, a, true)
@@ -301,22 +320,7 @@ Section Exec.
           let a1 := zero_arr (cp_zero c) a in
           (w1, match cp_errslot c with Some i => aput i te a1 | None => a1 end, true)
         else exec rest w1 (write_params (cp_out c) (remove_nth (cp_tepos c) outs) a)
-      | ClWrapper =>
-        let snapshot := a in
-        (fix run (t : wtree) (cur : list val) (count : nat) {struct t} : xres :=
-           match t with
-           | WRet w1 rets =>
-             let cur1 := if count =? 0 then zero_arr (cp_zero c) cur else cur in
-             (w1, write_params (cp_ret c) rets cur1, true)
-           | WInner w1 iargs k =>
-             let start := if cp_parallel c then snapshot
-                          else if count =? 0 then cur else snapshot in
-             match exec rest w1 (write_params (cp_out c) iargs start) with
-             | (w2, a2, ok) =>
-               if negb ok then (w2, a2, false) else
-               run (k w2 (read_params (cp_recv c) a2)) (if cp_parallel c then cur else a2) (S count)
-             end
-           end) (beh_wrap (cp_pid c) w args) a 0
+      | ClWrapper => run_wrap c (exec rest) a (beh_wrap (cp_pid c) w args) a 0
       | ClFinal =>
         let (w1, rets) := beh_fn (cp_pid c) w args in
         (w1, write_params (cp_ret c) rets a, true)
